@@ -280,6 +280,9 @@ def register(M):
 
     @ext('ruamel.yaml.YAML')
     def _yaml(interp, args, kw, node):
+        typ = kw.get('typ', args[0] if args else None)
+        if typ not in (None, 'safe', 'rt', 'unsafe', 'base') or kw.get('pure') not in (None, True, False):
+            raise AnalysisError(f'YAML(typ={typ!r}) not modelled', node)
         return YamlObj()
 
     @ext('json.loads')
@@ -347,6 +350,10 @@ def register(M):
 
     @ext('xarray.open_dataset', 'xarray.load_dataset')
     def _open_dataset(interp, args, kw, node):
+        # the decoding switches say how a file is read; the scenario fixes what the opened dataset holds, so they are accepted as given
+        for k in kw:
+            if k not in ('decode_cf', 'decode_times', 'mask_and_scale', 'engine', 'chunks', 'cache'):
+                raise AnalysisError(f'xarray.open_dataset({k}=) not modelled', node)
         src = args[0]
         if isinstance(src, ConfText) and src.kind == 'path-nc':
             ds = src.denotes
@@ -384,6 +391,10 @@ def register(M):
 
     @ext('jsonschema.validate')
     def _validate(interp, args, kw, node):
+        # schema validation is not interpreted (C20.validate reads the schema itself): instance= / schema= / cls= are accepted, nothing else
+        for k in kw:
+            if k not in ('instance', 'schema', 'cls'):
+                raise AnalysisError(f'jsonschema.validate({k}=) not modelled', node)
         return None
 
     # ---- the re module on concrete strings (stdlib; the patterns are additionally analysed structurally in C19) ----
